@@ -2104,8 +2104,10 @@ func (p *Parser) doRedirect(s *Stmt) {
 	case Hdoc, DashHdoc:
 		old := p.quote
 		p.quote, p.forbidNested = hdocWord, true
-		p.heredocs = append(p.heredocs, r)
 		r.Word = p.followWordTok(token(r.Op), r.OpPos)
+		// Only now can its body be read; reaching a newline while still
+		// parsing the delimiter word, as in zsh's "<<$b[", must not.
+		p.heredocs = append(p.heredocs, r)
 		p.quote, p.forbidNested = old, false
 		if p.tok == _Newl {
 			if len(p.accComs) > 0 {
